@@ -380,6 +380,14 @@ func (f Index) Iterate(fn IndexIterFunc, options *IterateOptions) (err error) {
 					return it.Error()
 				}
 			}
+		} else if !ok {
+			// no key at or after StartFrom: the closest key before it
+			// is the last key of the database
+			ok = it.Last()
+		} else if !bytes.Equal(startKey, it.Key()) {
+			// StartFrom is not stored and the cursor is on the first key
+			// after it: step back to the closest key before StartFrom
+			ok = it.Prev()
 		}
 	}
 
